@@ -518,6 +518,7 @@ impl Compiler<'_, '_, '_, '_> {
                 used,
                 param_count,
                 self.eval.module_env.frozen_heap(),
+                FrameSpan::new(signature_span),
             ),
             body_stmts: body,
             inline_def_body,
@@ -915,6 +916,7 @@ impl FrozenDef {
                 self.def_info.used,
                 self.parameters.len() as u32,
                 frozen_heap,
+                FrameSpan::new(self.def_info.signature_span),
             );
 
         // Store the optimized body.
